@@ -306,7 +306,7 @@ func init() {
 			e.mr.FlushAll()
 			for _, cmd := range []string{"PEXPIRE", "EXPIRE", "PEXPIREAT", "EXPIREAT", "PERSIST"} {
 				for _, flow := range []string{"login", "refresh"} {
-					e.redisFault = map[string]string{cmd: "always"}
+					e.setRedisFault(map[string]string{cmd: "always"})
 					if flow == "login" {
 						e.login(newBrowser(), u, "/x")
 					} else {
@@ -316,7 +316,7 @@ func init() {
 						ck := e.issueSessionCookie(s) // (saved while the fault is armed too)
 						e.do(reqSpec{Target: "/app/x", Cookie: ck})
 					}
-					e.redisFault = nil
+					e.setRedisFault(nil)
 					c.casen("c09e|no-entry-without-lifetime|"+cmd+"|"+flow, "")
 					c.count("c09:lifetime-commands-refused")
 					for _, k := range e.mr.Keys() {
